@@ -114,11 +114,23 @@ def norm_params(p):
     return tuple(sorted(out.items()))
 
 
+_DTZ = re.compile(r"(\d{8}T\d{6})Z")
+
+
+def utc_tzid_spelling(nparams, val):
+    """With a TZID parameter that names UTC itself, 'hhmmss' and 'hhmmssZ' spell the same value (12:00 in the zone UTC IS
+    12:00Z): compared without the designator.  Every other TZID: the text as it stands."""
+    if val[0] == "typed" and any(k == "TZID" and v in ("UTC", "/UTC") for k, v in nparams):
+        return ("typed", _DTZ.sub(r"\1", val[1]))
+    return val
+
+
 def model_lite(node, den=denoted):
     name, props, children = node
     by = {}
     for pname, params, vtext in props:
-        by.setdefault(pname, []).append((norm_params(params), den(pname, vtext)))
+        np_ = norm_params(params)
+        by.setdefault(pname, []).append((np_, utc_tzid_spelling(np_, den(pname, vtext))))
     return (name, tuple(sorted(by.items())), tuple(model_lite(c, den) for c in children))
 
 
@@ -144,7 +156,7 @@ def real_lite(c):
                     t = t.decode("utf-8") if isinstance(t, bytes) else t
                 except Exception as e:  # noqa: BLE001
                     t = f"!{type(e).__name__}"
-                val = ("typed", canon_typed(t))
+                val = utc_tzid_spelling(params, ("typed", canon_typed(t)))
             out.append((params, val))
         by[pname] = out
     return (c.name, tuple(sorted(by.items())), tuple(real_lite(s) for s in c.subcomponents))
